@@ -59,7 +59,14 @@ def rule_roles(ck, repo, R):
     mols = repo.func(f'{RX}:ReactionContainer.molecules')
     ck.decide('chain(self.reactants, self.reagents, self.products)' in src(mols.node), R, 'molecules():order', None, 'ReactionContainer.molecules() order changed', file=mols.file, line=mols.lineno)
     cr = repo.func('chython.files._convert:create_reaction')
-    ck.decide('_r_cls(rc, pr, rg' in src(cr.node) and "(rc, data['reactants'], 'reactant')" in src(cr.node) and "(pr, data['products'], 'products')" in src(cr.node), R, 'create_reaction:roles', None,
+    role_of = {}
+    for n_ in ast.walk(cr.node):
+        if isinstance(n_, ast.Tuple) and len(n_.elts) == 3 and isinstance(n_.elts[0], ast.Name) and isinstance(n_.elts[1], ast.Subscript) \
+                and src(n_.elts[1].value) == 'data' and isinstance(n_.elts[1].slice, ast.Constant):
+            role_of[n_.elts[0].id] = n_.elts[1].slice.value
+    ctor = [c for c in ast.walk(cr.node) if isinstance(c, ast.Call) and src(c.func) == '_r_cls' and len(c.args) >= 3]
+    passed = [role_of.get(a.id) if isinstance(a, ast.Name) else None for a in ctor[0].args[:3]] if len(ctor) == 1 else None
+    ck.decide(passed == ['reactants', 'products', 'reagents'], R, 'create_reaction:roles', passed,
               'create_reaction no longer passes (reactants, products, reagents) built from the same-named record lists', file=cr.file, line=cr.lineno)
     ck.floor(R, 7)
 
